@@ -354,3 +354,210 @@ def rule_infresolve(ctx) -> RuleResult:
     if not ok:
         res.report("xrdtypes._get_fill_value|sentinel-map", g.where(), g.qualname, "INF / NINF are no longer resolved through get_pos_infinity / get_neg_infinity respectively")
     return res
+
+
+# ---------------------------------------------------------------------------------------------
+# R-UNIQUEFROM (C19): the final reindex never meets a duplicated source index unprepared.
+# `reindex_(result, from_=G, to=...)` ends in `pd.Index(G).get_indexer(to)`, which raises pandas' InvalidIndexError when G has duplicates.
+# On the blockwise plan G is the *concatenation of the label sets of the blocks* (dask_groupby_agg), unique only if no group spans
+# two blocks -- a precondition on the user's chunking.  The code removes duplicated -1 (missing) slots itself, which states the belief
+# that duplicates occur; any other duplicate must be refused with an allowed exception before the reindex.
+_UNIQ_WORDS = ("is_unique", "duplicated(", "has_duplicates", "np.unique(", "_unique(", "nunique(")
+
+
+def rule_uniquefrom(ctx) -> RuleResult:
+    res = RuleResult("R-UNIQUEFROM", "a uniqueness refusal dominates the final reindex of block-concatenated group labels", min_instances=2)
+    from ..cfg import CFG, node_exprs
+    prog = ctx.prog
+    # (1) the source: blockwise groups are a concatenation of per-block label sets
+    dga = prog.func("core.dask_groupby_agg")
+    conc = [n for n in walk_own(dga.node) if isinstance(n, ast.Call) and norm(n.func) in ("np.concatenate", "numpy.concatenate")
+            and any(isinstance(x, ast.Name) and "block" in x.id for x in ast.walk(n))]
+    res.inst(f"dask_groupby_agg: {len(conc)} concatenation(s) of per-block label sets: {[norm(c)[:50] for c in conc]}", "source")
+    if not conc:
+        res.notes.append("blockwise groups are no longer a concatenation of per-block label sets: duplicates cannot arise that way; rule not applicable")
+        res.min_instances = 1
+        return res
+    # (2) the sink and its dominating refusal
+    f = prog.func("core.groupby_reduce")
+    cfg = CFG(f)
+    dom = cfg.dominators()
+    sinks = []
+    for n in cfg.nodes:
+        for e in node_exprs(n):
+            for c in ast.walk(e):
+                if isinstance(c, ast.Call) and norm(c.func) == "reindex_" and kwarg(c, "from_") is not None:
+                    sinks.append((n, c))
+    if not sinks:
+        raise AnalysisError("core.groupby_reduce: the final reindex_(..., from_=...) call is gone (anchor)")
+    for n, c in sinks:
+        g = kwarg(c, "from_")
+        gnames = {x.id for x in ast.walk(g) if isinstance(x, ast.Name)}
+        guards = []
+        for st in ast.walk(f.node):
+            if not isinstance(st, ast.If):
+                continue
+            txt = norm(st.test)
+            if not (any(w in txt for w in _UNIQ_WORDS) and (gnames & {x.id for x in ast.walk(st.test) if isinstance(x, ast.Name)})):
+                continue
+            raises = [r for b in (st.body, st.orelse) for s_ in b for r in ast.walk(s_) if isinstance(r, ast.Raise)]
+            if not any(r.exc is not None and norm(r.exc.func if isinstance(r.exc, ast.Call) else r.exc) in ("ValueError", "NotImplementedError") for r in raises):
+                continue
+            # some leaf test of this `if` is evaluated on every path to the sink (the others only narrow when the refusal applies)
+            leaves = {id(x) for x in ast.walk(st.test)}
+            if any(cfg.nodes[d].kind == "test" and id(cfg.nodes[d].ast) in leaves for d in dom.get(n.id, ())):
+                guards.append(txt[:80])
+        res.inst(f"groupby_reduce: reindex_(from_={norm(g)}) dominated by a uniqueness refusal: {guards[:1] or False}", f"sink|{norm(g)}")
+        if not guards:
+            res.report("core.groupby_reduce|duplicates-reach-reindex", f.where(c), f.qualname,
+                       f"'reindex_(…, from_={norm(g)}, …)' is reached without a refusal of duplicated labels: with method='blockwise' {norm(g)} is the "
+                       "concatenation of the blocks' label sets (dask_groupby_agg), so a group that spans two blocks reaches "
+                       "pd.Index.get_indexer and raises pandas.errors.InvalidIndexError instead of a ValueError (only the duplicated -1 slots are removed)")
+    return res
+
+
+# ---------------------------------------------------------------------------------------------
+# R-EMPTYIDX (C19): X[0] / X[-1] on a label index is reached only when the index is known to be non-empty.
+# All labels may be missing (NaN), none of the requested labels may occur: label indexes can be empty, and pandas raises IndexError.
+_EMPTYIDX_EXCEPTIONS = {
+    # (function, subscript text): (reason, validator: an earlier 'if <text>: return' that makes the index non-empty)
+    ("core.reindex_", "from_[0]"): ("from_ has array.shape[axis] entries and the zero-length case returned earlier", "array.shape[axis] == 0"),
+}
+
+
+def _const_index(sl):
+    if isinstance(sl, ast.UnaryOp) and isinstance(sl.op, ast.USub) and isinstance(sl.operand, ast.Constant) and isinstance(sl.operand.value, int):
+        return -sl.operand.value
+    if isinstance(sl, ast.Constant) and isinstance(sl.value, int) and not isinstance(sl.value, bool):
+        return sl.value
+    return None
+
+
+def rule_emptyidx(ctx) -> RuleResult:
+    res = RuleResult("R-EMPTYIDX", "first/last element of a label index is read only under a non-emptiness guard", min_instances=2)
+    from ..cfg import CFG, node_exprs
+    from ..dataflow import forward, atom_of
+    for q, f in sorted(ctx.prog.funcs.items()):
+        if f.is_overload or isinstance(f.node, ast.Lambda) or f.unit.name not in ("core", "dask_array_ops", "aggregations", "xrutils", "xrdtypes"):
+            continue
+        a = f.node.args
+        anns = {arg.arg: (norm(arg.annotation) if arg.annotation is not None else "") for arg in a.posonlyargs + a.args + a.kwonlyargs}
+        idx_vars = {p for p, t in anns.items() if "Index" in t or p in ("expect", "expected_groups", "from_", "to", "found_groups")}
+        # locals rebound from pd.Index(param) keep the role
+        for n in walk_own(f.node):
+            if isinstance(n, ast.Assign) and len(n.targets) == 1 and isinstance(n.targets[0], ast.Name) and isinstance(n.value, ast.Call) \
+                    and norm(n.value.func) in ("pd.Index", "pandas.Index") and n.value.args and isinstance(n.value.args[0], ast.Name) and n.value.args[0].id in idx_vars:
+                idx_vars.add(n.targets[0].id)
+        sites = [n for n in walk_own(f.node) if isinstance(n, ast.Subscript) and isinstance(n.ctx, ast.Load) and isinstance(n.value, ast.Name)
+                 and n.value.id in idx_vars and _const_index(n.slice) in (0, -1)]
+        if not sites:
+            continue
+        cfg = CFG(f)
+
+        def nonempty_atoms(v):
+            return {f"len({v}) > 0": True, f"len({v}) == 0": False, f"len({v})": True, f"{v}.empty": False, f"{v}.size": True,
+                    f"{v}.size > 0": True, f"{v}.size == 0": False, f"len({v}) >= 1": True, f"len({v}) != 0": True}
+
+        for s in sites:
+            v = s.value.id
+            table = nonempty_atoms(v)
+
+            # must-analysis: is v known non-empty?
+            def transfer(n, st, v=v):
+                from ..cfg import node_defs
+                return False if v in node_defs(n) else st
+
+            def edge(n, lab, st, table=table):
+                if n.kind == "test" and lab in ("T", "F") and n.ast is not None:
+                    at, pol = atom_of(n.ast)
+                    if at in table:
+                        truth = pol if lab == "T" else not pol
+                        if truth == table[at]:
+                            return True
+                return st
+
+            ins, _ = forward(cfg, False, transfer, edge=edge, join=lambda x, y: x and y)
+            node = None
+            for n in cfg.nodes:
+                for e in node_exprs(n):
+                    if any(x is s for x in ast.walk(e)):
+                        node = n
+            known = bool(node is not None and ins.get(node.id, False))
+            # short-circuit guard inside the same expression: `len(v) and v[0]` / IfExp
+            why = "non-emptiness established on every path" if known else None
+            if not known:
+                exc = _EMPTYIDX_EXCEPTIONS.get((q, norm(s)))
+                if exc is not None:
+                    reason, needle = exc
+                    ok = any(isinstance(st_, ast.If) and needle in norm(st_.test) and any(isinstance(r, ast.Return) for b in st_.body for r in ast.walk(b))
+                             and st_.lineno < s.lineno for st_ in walk_own(f.node))
+                    if ok:
+                        why = f"listed exception: {reason}"
+            res.inst(f"{q}: {norm(s)}: {why or 'NOT guarded'}", f"{q}|{norm(s)}")
+            if why is None:
+                res.report(f"{q}|unguarded-end-element|{norm(s)}", f.where(s), q,
+                           f"'{norm(s)}' is read on a path on which '{v}' may be empty (all labels missing, or none of the requested labels present): "
+                           "pandas raises IndexError, an internal error for an input that map-reduce handles")
+    return res
+
+
+# ---------------------------------------------------------------------------------------------
+# R-FILLNONE (C19, C05): the members of the reindex family agree about fill_value=None.
+# reindex_numpy and the sparse kernel refuse a needed fill with ValueError('Filling is required').  Every other place in the family that
+# writes the fill value into an array (np.full / np.full_like / a masked store) must be unreachable with fill_value None as well --
+# np.full_like(lazy_array, None) does not raise: it yields a graph whose result is a function object.
+def rule_fillnone(ctx) -> RuleResult:
+    res = RuleResult("R-FILLNONE", "no member of the reindex family writes a fill value that may still be None", min_instances=2)
+    from ..cfg import CFG, node_exprs, node_defs
+    from ..dataflow import forward, atom_of
+    fam = [q for q in ("core.reindex_", "core.reindex_numpy", "core.reindex_pydata_sparse_coo") if q in ctx.prog.funcs]
+    if len(fam) < 2:
+        raise AnalysisError("the reindex family (reindex_, reindex_numpy, ...) is gone (anchor)")
+    for q in fam:
+        f = ctx.prog.func(q)
+        if "fill_value" not in f.params:
+            continue
+        cfg = CFG(f)
+
+        def transfer(n, st):
+            if "fill_value" in node_defs(n):
+                a = n.ast
+                if isinstance(a, ast.Assign) and isinstance(a.value, ast.Constant) and a.value.value is None:
+                    return True
+                return False          # rebound to a computed value (maybe_promote, array.fill_value)
+            return st
+
+        def edge(n, lab, st):
+            if n.kind == "test" and lab in ("T", "F") and n.ast is not None:
+                at, pol = atom_of(n.ast)
+                if at == "fill_value is None":
+                    truth = pol if lab == "T" else not pol
+                    return True if truth else False
+            return st
+
+        ins, _ = forward(cfg, True, transfer, edge=edge, join=lambda x, y: x or y)
+        for n in cfg.nodes:
+            for e in node_exprs(n):
+                for c in ast.walk(e):
+                    sink = None
+                    if isinstance(c, ast.Call) and norm(c.func) in ("np.full", "np.full_like", "numpy.full", "numpy.full_like"):
+                        args = list(c.args[1:2]) + [k.value for k in c.keywords if k.arg == "fill_value"]
+                        if any(isinstance(x, ast.Name) and x.id == "fill_value" for x in args):
+                            sink = norm(c)[:60]
+                    if sink is None:
+                        continue
+                    may_none = ins.get(n.id, True)
+                    res.inst(f"{q}: {sink}: fill_value may be None here: {may_none}", f"{q}|{sink[:30]}")
+                    if may_none:
+                        res.report(f"{q}|fill-none|{sink[:30]}", f.where(c), q,
+                                   f"'{sink}' can run with fill_value=None (the default): the sibling kernels refuse that with ValueError('Filling is required'), "
+                                   "this site fills a NumPy float result with NaN, raises TypeError for integers, and for a lazy array builds a graph whose "
+                                   "result is a function object")
+            a = n.ast
+            if n.kind == "stmt" and isinstance(a, ast.Assign) and len(a.targets) == 1 and isinstance(a.targets[0], ast.Subscript) \
+                    and isinstance(a.value, ast.Name) and a.value.id == "fill_value":
+                may_none = ins.get(n.id, True)
+                res.inst(f"{q}: {norm(a)[:50]}: fill_value may be None here: {may_none}", f"{q}|{norm(a)[:30]}")
+                if may_none:
+                    res.report(f"{q}|fill-none|store", f.where(a), q, f"'{norm(a)[:60]}' can run with fill_value=None")
+    return res
